@@ -346,8 +346,15 @@ func c19JudgeConfig(mask int) *vlib.Failure {
 		cfg.ResponseHeaders = append(cfg.ResponseHeaders, "Set-Cookie2")
 		cfg.RequestHeaders = append(cfg.RequestHeaders, "Set-Cookie2")
 	})
-	set(6, func() { cfg.MaxAgeInSeconds = 86401 })
-	set(7, func() { cfg.PreflightSuccessStatus = 300 })
+	// (which out-of-range number is used rotates with the other bits of the mask: numbers that wrap back into range
+	// when narrowed to 8, 16 or 32 bits are among them)
+	rot := (mask>>8)*5 + mask&7
+	set(6, func() {
+		cfg.MaxAgeInSeconds = []int{86401, -2, 1<<32 + 5, -86400, 86400 + 1<<16, 100000, -1 << 31}[rot%7]
+	})
+	set(7, func() {
+		cfg.PreflightSuccessStatus = []int{300, 199, 456, 500, 1000, -1, -56, 1<<32 + 204, 100, 556, 712, 65536 + 204, -312}[rot%13]
+	})
 	set(8, func() { cfg.PrivateNetworkAccess, cfg.PrivateNetworkAccessInNoCORSModeOnly = true, true })
 	// the same violation several times: each occurrence is a violation of its own
 	set(9, func() { cfg.Credentialed = true; cfg.ResponseHeaders = append(cfg.ResponseHeaders, "*") })
